@@ -180,7 +180,13 @@ func (ot *objectTree) rebuildFromStorage(theirHeads, theirSnapshotPath []string,
 
 	// it is a good question whether we need to validate everything
 	// because maybe we can trust the stuff that is already in the storage
-	return added, ot.validateTree(nil)
+	err = ot.validateTree(nil)
+	if err != nil && newChanges != nil && oldTree != nil {
+		// the new changes are refused: keep exactly the tree we had (as for a failed build above);
+		// reloading it from the storage is not guaranteed to give the same heads and iteration
+		ot.tree = oldTree
+	}
+	return added, err
 }
 
 func (ot *objectTree) Id() string {
@@ -579,12 +585,8 @@ func (ot *objectTree) addChangesToTree(ctx context.Context, changesPayload RawCh
 		var added []*Change
 		added, err = ot.rebuildFromStorage(headsToUse, changesPayload.SnapshotPath, ot.newChangesBuf)
 		if err != nil {
+			// rebuildFromStorage has restored the tree we had before
 			log.Error("failed to rebuild with new heads", zap.Strings("headsToUse", headsToUse), zap.Error(err))
-			// rebuilding without new changes
-			_, rebuildErr := ot.rebuildFromStorage(nil, nil, nil)
-			if rebuildErr != nil {
-				log.Error("failed to rebuild from storage", zap.Strings("heads", ot.Heads()), zap.Error(rebuildErr))
-			}
 			return
 		}
 		addResult, err = ot.createAddResult(prevHeadsCopy, Rebuild, added)
